@@ -109,7 +109,7 @@ func Build(pool *genlab.Pool, name string, cases []genlab.Case) (*Batch, error) 
 	}
 	wg.Wait()
 	// compile all packages; failing ones are set aside
-	out, _ := ws.Go(b.Dir, "build", "./p/...")
+	out, _ := ws.GoBatch(b.Dir, "build", "./p/...")
 	if strings.Contains(out, "go: ") && !pkgLine.MatchString(out) && strings.TrimSpace(out) != "" {
 		return nil, fmt.Errorf("batch build failed: %s", out)
 	}
@@ -144,7 +144,7 @@ func Build(pool *genlab.Pool, name string, cases []genlab.Case) (*Batch, error) 
 		os.WriteFile(filepath.Join(d, "main.go"), []byte(sb.String()), 0o644)
 	}
 	os.MkdirAll(filepath.Join(b.Dir, "bin"), 0o755)
-	out, err = ws.Go(b.Dir, "build", "-o", filepath.Join(b.Dir, "bin")+"/", "./cmd/...")
+	out, err = ws.GoBatch(b.Dir, "build", "-o", filepath.Join(b.Dir, "bin")+"/", "./cmd/...")
 	if err != nil {
 		return nil, fmt.Errorf("driver build failed: %v\n%s", err, out)
 	}
